@@ -261,3 +261,19 @@ Section MirrorUniform.
     norm4 (constraints (mirm l) (mirm mo) d th) = norm4 (constraints l mo d th).
   Proof. intros. rewrite constraints_mirror_uniform. apply norm4_mir. Qed.
 End MirrorUniform.
+
+(* what the re-indexed lists are, entry by entry *)
+Lemma rotl_list_nth : forall k l j, (j < length l)%nat ->
+  nth j (rotl_list k l) 0 = nth ((j + length l - k) mod length l) l 0.
+Proof.
+  intros k l j Hj. unfold rotl_list.
+  rewrite (nth_map_seq (fun j0 => nth ((j0 + length l - k) mod length l) l 0)) by auto. reflexivity.
+Qed.
+
+Lemma revl_nth : forall l j, (0 < j < length l)%nat ->
+  nth j (perm_list (rev_idx (length l)) l) 0 = nth (length l - j) l 0.
+Proof.
+  intros l j Hj. unfold perm_list.
+  rewrite (nth_map_seq (fun j0 => nth (rev_idx (length l) j0) l 0)) by lia.
+  rewrite rev_idx_small by lia. reflexivity.
+Qed.
